@@ -146,12 +146,17 @@ class Ref:
         parts = []
         self._nodes(self.templates[name], None, parts, 0, (name,))
         # merge adjacent strings
-        merged = []
+        merged, run = [], []
         for p in parts:
-            if isinstance(p, str) and merged and isinstance(merged[-1], str):
-                merged[-1] += p
+            if isinstance(p, str):
+                run.append(p)
             else:
+                if run:
+                    merged.append("".join(run))
+                    run = []
                 merged.append(p)
+        if run:
+            merged.append("".join(run))
         return merged
 
     def _nodes(self, nodes, loop, out, depth, path):
@@ -285,41 +290,162 @@ def names_var(warnings, name) -> bool:
 
 
 # ----------------------------------------------------------------------------- generators
-PIECES = ["Hello ", "\n", " - ", "x", "eté über ", "a.b*c?", "\\1", "\\g<0>", "$1", "(", ")", "[z]", "|", "#if ",
+PIECES = ["Hello ", "\n", " - ", "x", "eté über ", "a.b*c?", "\\1", "\\g<0>", "$1", "(", ")", "[z]", "|", "#if ",
           ">", "?", "/each", " ", "\t", "%s", "'", '"', ", ", ": ", "Dear", "0", "<b>", "\\", "^$", "\r\n", "42", "else",
-          "\ue000", "\ue0001", "\ue0002x"]   # private-use characters (an escaping repair must round-trip them)
+          "\ue000", "\ue0001", "\ue0002x",   # private-use characters (an escaping repair must round-trip them)
+          "\u2028", "\x00", "%(x)s", "<0>"]
+# single braces, always padded with blanks so that they never touch another brace (a lone brace is not a delimiter);
+# used in literal text and string values only (a default text cannot hold a closing brace)
+BRACE_PIECES = [" {a} ", ' {"k": 1} ', " { ", " } "]
 OUTER = ["user", "title", "count", "topic", "role", "mode", "lang", "note", "tag", "city", "qty", "flag",
-         "_x", "a1", "Name2", "größe", "v", "n_0"]
+         "_x", "a1", "Name2", "größe", "v", "n_0",
+         # names that are prefixes / case variants of each other, or named like a filter / a template / an API word
+         "use", "user_", "User", "TITLE", "upper", "trim", "t1a", "name", "context", "x", "if", "each"]
 FIELDS = ["fname", "price", "sku", "k1"]
 EACHVARS = ["items", "rows", "users"]
-UNKNOWN_INC = ["ghost", "nope", "hdr2"]
-SAFE_FILTERS = ["upper", "lower", "trim", "title", "length", "json", "repr", "rev"]
+UNKNOWN_INC = ["ghost", "nope", "hdr2", "_direct_", "T1a", "T1A", "t1", "t1ab", "Ghost", "page", "user", "upper"]
+BUILTIN_NAMES = ["upper", "lower", "trim", "title", "length", "json", "repr"]
+SAFE_FILTERS = BUILTIN_NAMES + ["rev"]
+# custom filter names a renderer may be configured with: case variants of built-ins and of "rev", a built-in overridden,
+# words that are default texts on other renderers, unusual but legal names
+CUSTOM_POOL = ["Upper", "UPPER", "TRIM", "Json", "Title", "Rev", "REV", "upper", "length", "Guest", "_f", "f2", "9", "größe"]
 DEFAULT_WORDS = ["Guest", "anon", "none", "shout"]  # single words (not filters): handled like defaults
+# default texts that are NEAR a filter name without being one (other letter case, a prefix, a suffix added, padded with
+# blanks), or that name a variable / a template: they are default texts and nothing else (unless that very word is
+# registered as a filter on the renderer at hand, in which case the generator emits a filtered variable instead)
+NEAR_FILTER_WORDS = ["Upper", "UPPER", "Lower", "Trim", "TRIM", "Title", "TITLE", "Length", "Json", "JSON", "Repr", "REPR",
+                     "Rev", "REV", "uppe", "uppercase", "lowe", "trim_", "_trim", "json2", "titl", "rev2", "rEv",
+                     " upper", "upper ", " trim ", "lower\t", "user", "t1a", "item", "index", "True", "None", "0"]
+
+
+class Obj:
+    """A bound value that is not a builtin: str() and repr() differ (the documented output of a value is str())."""
+
+    def __init__(self, tag):
+        self.tag = tag
+
+    def __str__(self):
+        return "S<%s>" % self.tag
+
+    def __repr__(self):
+        return "Obj(%r)" % (self.tag,)
+
+    def __eq__(self, other):
+        return isinstance(other, Obj) and other.tag == self.tag
+
+    def __hash__(self):
+        return hash(("Obj", self.tag))
+
+
+class Empty:
+    """A falsy value that is neither None, a number nor a builtin container (truthiness through __len__)."""
+
+    def __len__(self):
+        return 0
+
+    def __repr__(self):
+        return "Empty()"
+
+    __str__ = __repr__
+
+    def __eq__(self, other):
+        return isinstance(other, Empty)
+
+    def __hash__(self):
+        return 7
+
+
+def mk_filter(name):
+    if name == "rev":
+        return lambda x: str(x)[::-1]
+    return lambda x, name=name: "<%s:%s>" % (name, x)
 
 
 def custom_filters():
-    return {"rev": lambda x: str(x)[::-1]}
+    return {"rev": mk_filter("rev")}
 
 
-def gen_text(rng, lo=1, hi=3):
-    return "".join(rng.choice(PIECES) for _ in range(rng.randint(lo, hi)))
+class Profile:
+    """What the renderer of a case is configured with, as far as the generator must know it: the names that are filters
+    on that renderer (everything else after a '|' is a default text)."""
+
+    def __init__(self, custom_names=("rev",), ctor="dict"):
+        self.custom = list(custom_names)
+        self.ctor = ctor                                   # "dict" | "none" | "empty"
+        self.fnames = sorted(set(BUILTIN_NAMES) | set(self.custom))
+        self.fset = set(self.fnames)
+
+    def ctor_arg(self):
+        if self.ctor == "none":
+            return None
+        return {n: mk_filter(n) for n in self.custom}
+
+    def describe(self):
+        return {"filters": None if self.ctor == "none" else sorted(self.custom)}
+
+
+CLASSIC = Profile()
+
+
+def gen_profile(rng):
+    r = rng.random()
+    if r < 0.45:
+        return CLASSIC
+    if r < 0.55:
+        return Profile((), "none")
+    if r < 0.62:
+        return Profile((), "empty")
+    names = [n for n in CUSTOM_POOL if rng.random() < 0.22]
+    if rng.random() < 0.7:
+        names.append("rev")
+    return Profile(names, "dict")
+
+
+def near_miss(rng, name):
+    """A name that a tolerant lookup (case-insensitive, stripped, prefix, normalised) would take for `name`."""
+    cands = [name.swapcase(), name.upper(), name.lower(), name.capitalize(), name + "_", "_" + name, name + "2",
+             name + " ", " " + name, name.casefold(), name.title()]
+    if len(name) > 1:
+        cands += [name[:-1], name[1:]]
+    if name and name[0].isascii() and name[0].isalpha():
+        cands.append(chr(ord(name[0]) + 0xFEE0) + name[1:])     # full-width first letter (NFKC-equal)
+    cands = [c for c in cands if c != name and c not in RESERVED]
+    return rng.choice(cands) if cands else name + "_"
+
+
+RESERVED = ("template", "sequence", "self", "")
+
+
+def gen_text(rng, lo=1, hi=3, braces=True):
+    out = []
+    for _ in range(rng.randint(lo, hi)):
+        out.append(rng.choice(BRACE_PIECES) if braces and rng.random() < 0.04 else rng.choice(PIECES))
+    return "".join(out)
+
+
+BOUNDARY_VALUES = [0.1 + 0.2, 2 ** 53 + 1, -(2 ** 63), 10 ** 30, -0.0, float("nan"), float("inf"), float("-inf"), 1e22,
+                   1e-7, 5e-324, b"by", 0j, (1, "t"), frozenset()]
 
 
 def gen_scalar(rng):
     r = rng.random()
-    if r < 0.55:
+    if r < 0.52:
         s = gen_text(rng, 0, 3)
         if rng.random() < 0.15:
             s = "  " + s + " "
         return s
-    if r < 0.70:
+    if r < 0.67:
         return rng.choice([0, 1, -7, 42, 10 ** 12])
-    if r < 0.80:
+    if r < 0.77:
         return rng.choice([True, False])
-    if r < 0.88:
+    if r < 0.85:
         return None
-    if r < 0.94:
+    if r < 0.90:
         return rng.choice([0.0, 1.5, -2.25])
+    if r < 0.94:
+        return rng.choice(BOUNDARY_VALUES)
+    if r < 0.96:
+        return Obj(rng.choice(["a", "b"]))
     return ""
 
 
@@ -332,16 +458,21 @@ def gen_value(rng):
     return {rng.choice(FIELDS + OUTER[:4]): gen_scalar(rng) for _ in range(rng.randint(0, 2))}
 
 
-def gen_default(rng):
-    if rng.random() < 0.3:
-        return rng.choice(DEFAULT_WORDS)
+def gen_default(rng, prof=CLASSIC):
+    """A default text (never a filter name of the renderer at hand; never holds a brace)."""
     while True:
-        d = gen_text(rng, 1, 3)
-        if d not in SAFE_FILTERS:
+        r = rng.random()
+        if r < 0.25:
+            d = rng.choice(DEFAULT_WORDS)
+        elif r < 0.5:
+            d = rng.choice(NEAR_FILTER_WORDS) if rng.random() < 0.7 else near_miss(rng, rng.choice(prof.fnames))
+        else:
+            d = gen_text(rng, 1, 3, braces=False)
+        if d and d not in prof.fset:
             return d
 
 
-def _simple_segment(rng, names, inc_targets, in_each):
+def _simple_segment(rng, names, inc_targets, in_each, prof=CLASSIC):
     """text / variable form / include (the only things allowed inside a block body)."""
     r = rng.random()
     if r < 0.30:
@@ -361,36 +492,44 @@ def _simple_segment(rng, names, inc_targets, in_each):
     if r < 0.62:
         return ("opt", rng.choice(plain))
     if r < 0.73:
-        return ("def", rng.choice(plain), gen_default(rng))
+        return ("def", rng.choice(plain), gen_default(rng, prof))
     if r < 0.85:
-        return ("filt", rng.choice(plain), rng.choice(SAFE_FILTERS))
+        # the built-ins keep the larger share; a configured custom filter is used whenever there is one
+        pool = prof.custom if (prof.custom and rng.random() < 0.3) else prof.fnames
+        return ("filt", rng.choice(plain), rng.choice(pool))
     if inc_targets is not None:
         if inc_targets and rng.random() < 0.85:
             return ("inc", rng.choice(inc_targets))
         if rng.random() < 0.4:
-            return ("inc", rng.choice(UNKNOWN_INC))
+            q = rng.random()
+            if q < 0.6 or not inc_targets:
+                return ("inc", rng.choice(UNKNOWN_INC))
+            if q < 0.85:      # a name that a tolerant lookup would take for a registered template
+                return ("inc", near_miss(rng, rng.choice(inc_targets)).strip() or "ghost")
+            plainnames = [n for n in names if not re.fullmatch(r"[tT]\d\w*", n)]
+            return ("inc", rng.choice(plainnames or UNKNOWN_INC))     # named like a (possibly bound) variable
     return ("text", gen_text(rng))
 
 
-def gen_nodes(rng, names, inc_targets, lo, hi, blocks=True):
+def gen_nodes(rng, names, inc_targets, lo, hi, blocks=True, prof=CLASSIC):
     nodes = []
     for _ in range(rng.randint(lo, hi)):
         r = rng.random()
         if blocks and r < 0.14:
-            body = [_simple_segment(rng, names, inc_targets, False) for _ in range(rng.randint(0, 3))]
+            body = [_simple_segment(rng, names, inc_targets, False, prof) for _ in range(rng.randint(0, 3))]
             els = None
             if rng.random() < 0.5:
-                els = [_simple_segment(rng, names, inc_targets, False) for _ in range(rng.randint(0, 2))]
+                els = [_simple_segment(rng, names, inc_targets, False, prof) for _ in range(rng.randint(0, 2))]
             nodes.append(("if", rng.choice(names), body, els, rng.choice([" ", " ", "  ", "\t"])))
         elif blocks and r < 0.27:
-            body = [_simple_segment(rng, names, inc_targets, True) for _ in range(rng.randint(0, 4))]
+            body = [_simple_segment(rng, names, inc_targets, True, prof) for _ in range(rng.randint(0, 4))]
             nodes.append(("each", rng.choice(EACHVARS), body, rng.choice([" ", " ", "  "])))
         else:
-            nodes.append(_simple_segment(rng, names, inc_targets, False))
+            nodes.append(_simple_segment(rng, names, inc_targets, False, prof))
     return nodes
 
 
-def gen_templates(rng, max_main=8, specials_as_outer=True, p_inc=0.6):
+def gen_templates(rng, max_main=8, specials_as_outer=True, p_inc=0.6, prof=CLASSIC):
     """main template + up to 3 levels of acyclic includes. Returns (templates, names)."""
     names = rng.sample(OUTER, rng.randint(3, 7))
     if specials_as_outer and rng.random() < 0.12:
@@ -404,19 +543,32 @@ def gen_templates(rng, max_main=8, specials_as_outer=True, p_inc=0.6):
             for j in range(1 if lvl > 1 else rng.randint(1, 2)):
                 nm = "t%d%s" % (lvl, "ab"[j])
                 deeper = [t for l2 in range(lvl + 1, 4) for t in levels[l2]]
-                nodes = gen_nodes(rng, names, deeper, 1, 4)
+                nodes = gen_nodes(rng, names, deeper, 0 if rng.random() < 0.05 else 1, 4, prof=prof)
                 if deeper and rng.random() < 0.7:
                     nodes.insert(rng.randint(0, len(nodes)), ("inc", rng.choice(levels[lvl + 1] or deeper)))
                 templates[nm] = nodes
                 levels[lvl].append(nm)
     all_inc = [t for l2 in (1, 2, 3) for t in levels[l2]]
-    main = gen_nodes(rng, names, all_inc, 1, max_main)
+    main = gen_nodes(rng, names, all_inc, 0 if rng.random() < 0.02 else 1, max_main, prof=prof)
     if levels[1] and rng.random() < 0.8:
         main.insert(rng.randint(0, len(main)), ("inc", rng.choice(levels[1])))
     if levels[1] and rng.random() < 0.25:   # include inside an each-body: rendered once per item, outer context
         main.insert(rng.randint(0, len(main)),
                     ("each", rng.choice(EACHVARS), [("dot",), ("inc", rng.choice(levels[1])), ("text", ";")], " "))
+    twin_name = None
+    if all_inc and rng.random() < 0.2:
+        # a registered template whose NAME is a near miss of another registered template's name (other letter case ...):
+        # plain text, so the include depth is unchanged; the page includes one of the two spellings (or both)
+        tgt = rng.choice(all_inc)
+        twin = near_miss(rng, tgt).strip()
+        if twin and twin not in templates and re.fullmatch(r"\w+", twin) and not (len(twin) == 3 and twin[0] == "t"):
+            templates[twin] = [("text", "<twin %s>" % twin)]
+            twin_name = twin
+            for nm in [twin] + ([tgt] if rng.random() < 0.5 else []):
+                main.insert(rng.randint(0, len(main)), ("inc", nm))
     templates["__main__"] = main
+    if twin_name is not None and include_depth(templates) > 3:     # stay inside the quantifier (<= 3 levels of includes)
+        del templates[twin_name]                                    # (its includes are unknown includes now)
     return templates, names
 
 
@@ -443,14 +595,41 @@ def used_names(templates):
     return plain, filt, cond, each
 
 
-COND_VALUES = [True, False, 0, 1, "", "0", None, [], [0], "yes", {}, 0.0]
+COND_VALUES = [True, False, 0, 1, "", "0", None, [], [0], "yes", {}, 0.0,
+               -0.0, float("nan"), (), (0,), " ", 0j, b"", Empty(), Obj("c"), "False", [[]], 1e-320]
 
 
 def gen_item(rng, dicty):
     if dicty:
         keys = [f for f in FIELDS if rng.random() < 0.7]
-        return {k: gen_scalar(rng) for k in keys}
+        item = {k: gen_scalar(rng) for k in keys}
+        if rng.random() < 0.12:      # a key that a tolerant lookup would take for a field name (the field itself absent or not)
+            f = rng.choice(FIELDS)
+            item[near_miss(rng, f)] = "nm!" + gen_text(rng, 0, 1)
+            if rng.random() < 0.5:
+                item.pop(f, None)
+        return item
     return gen_scalar(rng)
+
+
+def gen_items(rng):
+    """The value bound to an each-variable: a list (sometimes a tuple) of scalars / dicts / both, sometimes holding the
+    same object or equal-but-distinct objects more than once, or items that are equal across types (0 == False, 1 == 1.0)."""
+    dicty = rng.random() < 0.5
+    mixed = rng.random() < 0.15
+    n = rng.choice([0, 1, 2, 2, 3, 4])
+    items = [gen_item(rng, dicty if not mixed else rng.random() < 0.5) for _ in range(n)]
+    r = rng.random()
+    if items and r < 0.10:           # the very same object again
+        items.insert(rng.randint(0, len(items)), rng.choice(items))
+    elif items and r < 0.18:         # an equal but distinct object
+        items.insert(rng.randint(0, len(items)), copy.deepcopy(rng.choice(items)))
+    elif r < 0.24:
+        items = rng.choice([[0, False, 0.0], [1, True, 1.0], [False, 0], ["", ""], [None, None, None], ["1", 1]])
+        items = list(items)
+    if rng.random() < 0.12:
+        items = tuple(items)
+    return items
 
 
 def gen_context(rng, templates, p_bound):
@@ -464,7 +643,7 @@ def gen_context(rng, templates, p_bound):
                 ctx[n] = gen_scalar(rng)
             continue
         if rng.random() < p_bound:
-            ctx[n] = rng.choice(COND_VALUES) if (n in cond and rng.random() < 0.6) else gen_value(rng)
+            ctx[n] = copy.deepcopy(rng.choice(COND_VALUES)) if (n in cond and rng.random() < 0.6) else gen_value(rng)
     for n in sorted(filt):
         if n not in ctx:
             ctx[n] = gen_value(rng)
@@ -475,10 +654,39 @@ def gen_context(rng, templates, p_bound):
         if r < 0.14:
             ctx[n] = None
             continue
-        dicty = rng.random() < 0.5
-        mixed = rng.random() < 0.15
-        ctx[n] = [gen_item(rng, dicty if not mixed else rng.random() < 0.5) for _ in range(rng.choice([0, 1, 2, 2, 3, 4]))]
+        ctx[n] = gen_items(rng)
+    r = rng.random()
+    if r < 0.30:
+        # bindings under names that a tolerant lookup would take for a used name; the used name itself stays as it is or
+        # (unless it is a filtered variable: those are always bound) is taken away
+        used = sorted(plain | cond | each | filt)
+        for n in rng.sample(used, min(len(used), rng.randint(1, 3))):
+            nm = near_miss(rng, n)
+            if nm not in ctx:
+                ctx[nm] = ("near!" + gen_text(rng, 0, 1)) if n not in each else ["near!"]
+            if n not in filt and rng.random() < 0.6:
+                ctx.pop(n, None)
+    if rng.random() < 0.20:
+        # bindings nothing in the templates refers to: named like filters, templates, loop fields, default words, API words
+        for n in rng.sample(EXTRA_KEYS, rng.randint(1, 3)):
+            if n not in ctx and n not in (plain | cond | each | filt):
+                ctx[n] = gen_scalar(rng)
+    if rng.random() < 0.10:
+        # one object bound under two names
+        ks = sorted(ctx)
+        if len(ks) >= 2:
+            a, b = rng.sample(ks, 2)
+            if a not in filt and b not in filt and (a in each) == (b in each):
+                ctx[b] = ctx[a]
+    if rng.random() < 0.3:
+        items = list(ctx.items())
+        rng.shuffle(items)
+        ctx = dict(items)
     return ctx
+
+
+EXTRA_KEYS = ["upper", "lower", "rev", "Upper", "t1a", "t2a", "ghost", "fname", "price", "Guest", "anon", "filters", "templates",
+              "strict", "silent", "context", "warnings", "name", "mrna", "page0", "_direct_", "zzz"]
 
 
 # ----------------------------------------------------------------------------- sessions on one long-lived renderer
@@ -542,8 +750,7 @@ def revalue(rng, templates, old, one_only=False):
         elif k in fresh:
             new[k] = fresh[k]
         elif k in EACHVARS:
-            dicty = rng.random() < 0.5
-            new[k] = [gen_item(rng, dicty) for _ in range(rng.choice([0, 1, 2, 3]))]
+            new[k] = gen_items(rng)
         else:
             new[k] = gen_scalar(rng)
     return new
@@ -568,8 +775,18 @@ def mutate_list_in_place(rng, bind):
     lst = bind[k]
     dicty = any(isinstance(i, dict) for i in lst) or (k in EACHVARS and not lst and rng.random() < 0.5)
     new_item = (lambda: gen_item(rng, dicty)) if k in EACHVARS else (lambda: gen_scalar(rng))
-    op = rng.choice(["append", "replace", "pop", "reverse", "insert0"])
-    if not lst or op == "append":
+    op = rng.choice(["append", "replace", "pop", "reverse", "insert0", "item-field", "repeat"])
+    dicts = [i for i in lst if isinstance(i, dict)]
+    if op == "item-field" and dicts:          # a dict item changed in place (same dict, same list)
+        d = rng.choice(dicts)
+        f = rng.choice(FIELDS)
+        if f in d and rng.random() < 0.4:
+            del d[f]
+        else:
+            d[f] = gen_scalar(rng)
+    elif op == "repeat" and lst:              # the same item object once more
+        lst.insert(rng.randint(0, len(lst)), rng.choice(lst))
+    elif not lst or op == "append":
         lst.append(new_item())
     elif op == "replace":
         lst[rng.randrange(len(lst))] = new_item()
